@@ -1,14 +1,13 @@
 import Mercure.Lemmas.Hub
+import Mercure.Lemmas.SysStream
 import Mercure.Model.Sys
 import Mercure.Generated.Facts
 /-
   C06 — Live delivery is exactly-once and in one consistent order.
 
-  Two layers (see C07): operation level below; region level (every interleaving of concurrent
-  publishers and subscribers: `fifo`, `bolt_stream_prefix_of_ideal`, `bolt_stream_complete`,
-  `local_stream_prefix`, `local_stream_complete`) is added to this file when the proofs are
-  complete (DESIGN.md §15); until then it is covered by the controlled-schedule correspondence and
-  its oracles (no duplicate, contiguous run of the history, nothing missed at quiescence).
+  Two layers: operation level (Mercure.Hub model) and region level (Mercure.Sys: every interleaving
+  of any number of concurrent publishers, registrations, disconnections, removals, consumers and
+  Close, at the granularity of the synchronisation operations of the code in /repo).
 -/
 namespace Mercure.C06
 open Mercure
@@ -33,8 +32,71 @@ theorem written_was_enqueued (M : Str → Str → Bool) (tokP tokS : Str → Opt
     the exclusive transport lock (one publisher at a time ⇒ one order for every subscriber). -/
 theorem repo_flags : Facts.sysFlags.localMatchLocked = true := by decide
 
+/-! ### region level: every schedule -/
+
+open Mercure.Sys in
+/-- FIFO: what the consumer has taken plus what is buffered is exactly what was sent, in order. -/
+theorem fifo (kind : Sys.Kind) (size : Nat) (subs : List Sys.Sub) (ops : List Sys.Op)
+    (wf : Sys.WellFormed subs ops) (sched : List Nat) :
+    ∀ b ∈ (Sys.reach Sys.Flags.repaired kind size subs ops sched).subs, b.received ++ b.out = b.enq :=
+  Sys.Stream.fifo size subs ops kind wf sched
+
+/-- Bolt: the stored history is the sequence of accepted updates with sequence numbers 1..n —
+    the single total order. -/
+theorem bolt_one_total_order (subs : List Sys.Sub) (ops : List Sys.Op) (wf : Sys.WellFormed subs ops) (sched : List Nat) :
+    (Sys.reach Sys.Flags.repaired .bolt 0 subs ops sched).tr.db.map (·.2) = (Sys.reach Sys.Flags.repaired .bolt 0 subs ops sched).tr.accepted ∧
+    (Sys.reach Sys.Flags.repaired .bolt 0 subs ops sched).tr.db.map (·.1) = List.range' 1 (Sys.reach Sys.Flags.repaired .bolt 0 subs ops sched).tr.accepted.length :=
+  Sys.Stream.db_is_accepted subs ops wf sched
+
+/-- **Bolt, exactly once and in that order, under every schedule**: what a subscriber has been sent
+    is always a gap-free prefix of (what it is owed from the history, then every update accepted
+    after it was indexed) filtered to what it matches — no duplicate, no gap, no reordering… -/
+theorem bolt_exactly_once_in_order (subs : List Sys.Sub) (ops : List Sys.Op) (wf : Sys.WellFormed subs ops) (sched : List Nat) :
+    ∀ b ∈ (Sys.reach Sys.Flags.repaired .bolt 0 subs ops sched).subs, ∀ k, b.joinedAt = some k →
+      b.enq <+: Sys.ideal b (Sys.reach Sys.Flags.repaired .bolt 0 subs ops sched).tr.accepted k :=
+  Sys.Stream.bolt_stream_prefix_of_ideal subs ops wf sched
+
+/-- …and all of it once every operation has returned, for a subscriber that stays connected and keeps up. -/
+theorem bolt_nothing_missed (subs : List Sys.Sub) (ops : List Sys.Op) (wf : Sys.WellFormed subs ops) (sched : List Nat)
+    (hq : (Sys.reach Sys.Flags.repaired .bolt 0 subs ops sched).allDone = true) :
+    ∀ s, s ∈ (Sys.reach Sys.Flags.repaired .bolt 0 subs ops sched).tr.index →
+      let b := Sys.getSub (Sys.reach Sys.Flags.repaired .bolt 0 subs ops sched) s
+      b.ready = true → b.disconnected = false → ∀ k, b.joinedAt = some k →
+      b.enq = Sys.ideal b (Sys.reach Sys.Flags.repaired .bolt 0 subs ops sched).tr.accepted k :=
+  Sys.Stream.bolt_stream_complete subs ops wf sched hq
+
+/-- Local transport: a subscriber is sent exactly the matching updates that entered fan-out after
+    it was indexed, each once, in the one order in which updates entered fan-out (shared by every
+    subscriber: the fan-out runs under the transport lock)… -/
+theorem local_exactly_once_in_order (size : Nat) (subs : List Sys.Sub) (ops : List Sys.Op) (wf : Sys.WellFormed subs ops) (sched : List Nat) :
+    ∀ b ∈ (Sys.reach Sys.Flags.repaired .local size subs ops sched).subs, ∀ k, b.joinedAt = some k →
+      b.enq <+: ((Sys.reach Sys.Flags.repaired .local size subs ops sched).tr.accepted.drop k).filter b.matches :=
+  Sys.Stream.local_stream_prefix size subs ops wf sched
+
+/-- …all of them at quiescence. -/
+theorem local_nothing_missed (size : Nat) (subs : List Sys.Sub) (ops : List Sys.Op) (wf : Sys.WellFormed subs ops) (sched : List Nat)
+    (hq : (Sys.reach Sys.Flags.repaired .local size subs ops sched).allDone = true) :
+    ∀ s, s ∈ (Sys.reach Sys.Flags.repaired .local size subs ops sched).tr.index →
+      let b := Sys.getSub (Sys.reach Sys.Flags.repaired .local size subs ops sched) s
+      b.ready = true → b.disconnected = false → ∀ k, b.joinedAt = some k →
+      b.enq = ((Sys.reach Sys.Flags.repaired .local size subs ops sched).tr.accepted.drop k).filter b.matches :=
+  Sys.Stream.local_stream_complete size subs ops wf sched hq
+
+/-- Nothing is sent to a subscriber before it is indexed. -/
+theorem nothing_before_registration (kind : Sys.Kind) (size : Nat) (subs : List Sys.Sub) (ops : List Sys.Op)
+    (wf : Sys.WellFormed subs ops) (sched : List Nat) :
+    ∀ b ∈ (Sys.reach Sys.Flags.repaired kind size subs ops sched).subs, b.joinedAt = none → b.enq = [] :=
+  Sys.Stream.nothing_before_indexed size subs ops kind wf sched
+
 end Mercure.C06
 
 #print axioms Mercure.C06.history_is_the_accepted_order
 #print axioms Mercure.C06.written_was_enqueued
 #print axioms Mercure.C06.repo_flags
+#print axioms Mercure.C06.fifo
+#print axioms Mercure.C06.bolt_one_total_order
+#print axioms Mercure.C06.bolt_exactly_once_in_order
+#print axioms Mercure.C06.bolt_nothing_missed
+#print axioms Mercure.C06.local_exactly_once_in_order
+#print axioms Mercure.C06.local_nothing_missed
+#print axioms Mercure.C06.nothing_before_registration
